@@ -75,6 +75,8 @@ func pool(thorough bool) []cval {
 		// a user-defined B that yields something other than a boolean: the value is false (B does not yield true)
 		// descendants of functions (Func#B answers for the whole family)
 		{Src: "{|x| x}.bear", NonZero: true}, {Src: "m{1}.bear({a: 1})", NonZero: true}, {Src: "Int['+].bear", NonZero: true}, {Src: "{|x| x}.bear.bear({b: 2})", NonZero: true}, {Src: "<{|x| yield x}>.bear", NonZero: true},
+		// a B that does not yield true because it fails: the value counts as false in every construct alike
+		{Src: "Func", NoBang: false}, {Src: "Iter"},
 		{Src: "{B: 1}"}, {Src: `{B: "yes"}`}, {Src: "{n: 3, B: m{.n}}"}, {Src: "{B: m{[3]}}.bear"}, {Src: "7.bear({B: 1})"},
 	}
 	if thorough {
@@ -330,6 +332,50 @@ func judgeAgain(c *core.Ctx, ci int, vals []int) {
 	}
 }
 
+// ---------------------------------------------------------------- one object whose B answers differently over time
+
+// The rule is asked every time a value is used as a condition: an object whose B reads a variable is used by the
+// same construct before and after that variable changes (true, false, true).
+func checkStateful(c *core.Ctx) {
+	for ci := range constructs {
+		if !c.Mine(ci) {
+			continue
+		}
+		cs := constructs[ci]
+		src := prelude + "st := 1\no := {B: m{st == 1}}\nf := {|k| " + cs.body("k") + "}\nr1 := nil.try.{|u| f(o)}.A\nst := 0\nr2 := nil.try.{|u| f(o)}.A\nst := 1\nr3 := nil.try.{|u| f(o)}.A\n[r1, r2, r3]"
+		o := c.R().EvalSrc(src, "")
+		c.Eval(1)
+		c.Nontrivial(1)
+		c.Validated(1)
+		if o.Kind == "syntax" {
+			c.HarnessError("stateful program does not parse: %s: %s", src, o.ErrMsg)
+			continue
+		}
+		one := func(truthy bool) (string, string) {
+			out, r := cs.fOut, cs.fRes
+			if truthy {
+				out, r = cs.tOut, cs.tRes
+			}
+			if r == "" {
+				r = `{"B": {|self| (st == 1)}}`
+			}
+			if strings.HasPrefix(r, "E:") {
+				return out, "[nil, [" + strings.TrimPrefix(r, "E:") + "]]"
+			}
+			return out, "[" + r + ", nil]"
+		}
+		o1, r1 := one(true)
+		o2, r2 := one(false)
+		wantOut, wantRes := o1+o2+o1, "["+r1+", "+r2+", "+r1+"]"
+		ok := o.Kind == "value" && o.Repr == wantRes && o.Out == wantOut
+		c.Outcome("stateful:" + map[bool]string{true: "ok", false: "differs"}[ok])
+		if !ok {
+			c.Violation(core.Violation{Key: "truth-remembered/" + cs.name, Case: core.JSON(tcase{Kind: "stateful", I: ci}), Desc: strings.ReplaceAll(strings.TrimPrefix(src, prelude), "\n", "; "),
+				Expected: fmt.Sprintf("out=%q result=%s", wantOut, wantRes), Observed: fmt.Sprintf("out=%q %s", o.Out, show(o)), Repro: src + ".p\n"})
+		}
+	}
+}
+
 func run(c *core.Ctx) {
 	p := pool(true)
 	c.Note("pool_size", len(p))
@@ -348,6 +394,7 @@ func run(c *core.Ctx) {
 		checkValue(c, p, i, true)
 	}
 	checkAgain(c)
+	checkStateful(c)
 }
 
 func replay(c *core.Ctx, raw json.RawMessage) {
@@ -358,6 +405,10 @@ func replay(c *core.Ctx, raw json.RawMessage) {
 	}
 	if t.Kind == "again" {
 		judgeAgain(c, t.I, t.Again)
+		return
+	}
+	if t.Kind == "stateful" {
+		checkStateful(c)
 		return
 	}
 	checkValue(c, t.Vals, 0, t.Kind == "pair")
